@@ -1468,7 +1468,19 @@ func (g *gen) fileWith(p *pattern, frags []string, pkg string, imports []string)
 			if ctxSel != 8 && g.chance(0.1) {
 				ctxSel = 9
 			}
+			if ctxSel != 8 && g.chance(0.12) {
+				ctxSel = 10
+			}
 			switch ctxSel {
+			case 10:
+				// two instances in two different lists of one node: both sides of an assignment
+				other := strings.TrimRight(frags[(fi+1)%len(frags)], "\n")
+				stmt := g.pick(fr+" = "+other, fr+", w0 = "+other+", w1", "w0, "+fr+" = w1, "+other, fr+" += "+other, "w0, "+fr+" := "+other+", w1")
+				if parses("package p\nfunc _() {\n" + stmt + "\n}\n") {
+					body += stmt + "\n"
+				} else {
+					body += "_ = " + fr + "\n"
+				}
 			case 9:
 				// inside the body of a range loop (the syntax node with the most fields)
 				body += "for _, v := range xs {\n\t_ = v\n\tuse(" + fr + ")\n}\n"
